@@ -438,8 +438,12 @@ func (e *Exec) formatBlock(n *chainlib.Node, prop *xvlib.Account, order []int) (
 		tc.ReceivedTimestamp = 0
 		list = append(list, &tc)
 	}
-	height := n.L.GetMeta().TrunkHeight + 1
-	return n.MakeBlock(prop, n.L.GetMeta().TipBlockid, height, list, time.Now().UnixNano())
+	pre := n.S.GetLatestBlockid()
+	hd, err := n.L.QueryBlockHeader(pre)
+	if err != nil {
+		return nil, err
+	}
+	return n.MakeBlock(prop, pre, hd.Height+1, list, time.Now().UnixNano())
 }
 
 // ---------------------------------------------------------------- exec
@@ -593,6 +597,17 @@ func (e *Exec) opForeign(ids []int) string {
 		return "error:" + err.Error()
 	}
 	e.blockIDs(blk, "m1")
+	// a generated peer block must be valid for a node without pending transactions: try it on a copy first
+	e.seq++
+	c, err := w.R.OpenCopy(e.scratch, fmt.Sprintf("fc%d", e.seq))
+	if err != nil {
+		return "error:" + err.Error()
+	}
+	stage, err := e.receive(c, blk, true)
+	kvmem.Drop(c.Root)
+	if err != nil {
+		return "error:invalid-peer-block-" + stage
+	}
 	if stage, err := e.receive(w.R, blk, true); err != nil {
 		return "error:replica-" + stage
 	}
